@@ -57,6 +57,22 @@ class E7(_U):
     pass
 
 
+class E0s(E0):
+    """Subclass of an event type that steps may accept (exact-type routing probe)."""
+
+
+class E1s(E1):
+    pass
+
+
+class E2s(E2):
+    pass
+
+
+class E0x(E0):
+    """Subclass of E0 that no generated step accepts."""
+
+
 class X0(_U):
     """Never accepted by any generated step (unhandled-event probe)."""
 
@@ -98,7 +114,7 @@ class Stop1(StopEvent):
     payload: Any = None
 
 
-TYPES = {c.__name__: c for c in [Start0, E0, E1, E2, E3, E4, E5, E6, E7, X0, Prog,
+TYPES = {c.__name__: c for c in [Start0, E0, E1, E2, E3, E4, E5, E6, E7, E0s, E1s, E2s, E0x, X0, Prog,
                                  Resp0, Resp1, Fin, Ask0, Stop1]}
 TYPES["StopEvent"] = StopEvent
 
